@@ -61,7 +61,10 @@ def gram_passes(pid, tier):
         P.append(('NT2 T2 R<=4 W<=5 L<=3, strings<=%d' % (4 if q else 5), base + ['--nt', '2', '--t', '2', '--err', '0', '--maxR', '4', '--maxlen', '4' if q else '5']))
         if pid in ('C01', 'C11', 'C12', 'C02', 'C09'):
             P.append(('NT2 T3 R<=3 W<=5, strings<=%d' % (3 if q else 4), base + ['--nt', '2', '--t', '3', '--err', '0', '--maxR', '3', '--maxlen', '3' if q else '4']))
+        if pid == 'C06':
+            P.append(('error-rule frames NT2 T2 R<=2 through the checked buffer (recovery paths)', base + ['--nt', '2', '--t', '2', '--err', '1', '--maxR', '2', '--maxlen', '4']))
         if pid == 'C11':
+            P.append(('error-rule frames NT2 T2 R<=3 (conflicts on the error column)', base + ['--nt', '2', '--t', '2', '--err', '1', '--maxR', '3', '--maxlen', '0', '--with-prec', '--prec-levels', '2', '--rprec-max', '1']))
             P.append(('S/R grammars NT2 T2 R<=3 under every precedence/associativity assignment (both preferences)', base + ['--nt', '2', '--t', '2', '--err', '0', '--maxR', '3', '--maxlen', '0', '--with-prec', '--prec-levels', '2', '--rprec-max', '1']))
         if pid in ('C09', 'C01'):
             P.append(('NT2 T2 R<=3 W<=%d, inputs<=%d over terminals + space, newline and a foreign byte' % (4 if q else 5, 4 if q else 5), base + ['--nt', '2', '--t', '2', '--err', '0', '--maxR', '3', '--maxW', '4' if q else '5', '--maxlen', '4' if q else '5', '--rich']))
@@ -71,6 +74,7 @@ def gram_passes(pid, tier):
             P.append(('NT2 T2 R=5 W<=5 L<=2, strings<=4', base + ['--nt', '2', '--t', '2', '--err', '0', '--minR', '5', '--maxlen', '4']))
             P.append(('NT2 T3 R=4 W<=5, strings<=3', base + ['--nt', '2', '--t', '3', '--err', '0', '--minR', '4', '--maxlen', '3']))
     if pid == 'C16':
+        P.append(('NT2 T2 R<=3 W<=4, inputs<=4 over terminals + space, newline and a foreign byte (positions in the trace, lexer trace lines)', base + ['--nt', '2', '--t', '2', '--err', '0', '--maxR', '2' if q else '3', '--maxW', '4', '--maxlen', '4', '--rich']))
         P.append(('error-rule frames NT2 T2, strings<=4', base + ['--nt', '2', '--t', '2', '--err', '1', '--maxR', '2' if q else '3', '--maxlen', '4']))
     if pid == 'C08':
         P.append(('error-rule frames NT2 T2 R<=%d, strings<=%d' % (3 if q else 4, 4 if q else 5), base + ['--nt', '2', '--t', '2', '--err', '1', '--maxlen', '4' if q else '5'] + (['--maxR', '3'] if q else [])))
@@ -80,8 +84,8 @@ def gram_passes(pid, tier):
         P.append(('custom-lexer frames NT2 T2 (R<=2; with and without an error rule), inputs<=%d over {x,space,\\n}, every script of lexer answers' % (4 if q else 5), base + ['--custom', '1', '--nt', '2', '--t', '2', '--err', '2', '--maxlen', '4' if q else '5'] + (['--maxR', '2'] if q else [])))
         if not q: P.append(('custom-lexer frames NT2 T3 R<=2, inputs<=4', base + ['--custom', '1', '--nt', '2', '--t', '3', '--err', '2', '--maxlen', '4']))
     if pid == 'C05':
-        P.append(('operator grammars NT1 T3 R<=3, all precedence/associativity assignments', base + ['--nt', '1', '--t', '3', '--err', '0', '--maxR', '3', '--maxW', '6' if q else '7', '--maxlen', '4' if q else '5', '--prec-levels', '2' if q else '3', '--rprec-max', '2' if q else '3']))
-        P.append(('NT2 T2 R<=%d' % (3 if q else 4), base + ['--nt', '2', '--t', '2', '--err', '0', '--maxR', '3' if q else '4', '--maxlen', '4', '--prec-levels', '2' if q else '3', '--rprec-max', '1' if q else '3']))
+        P.append(('operator grammars NT1 T3 R<=3, all precedence/associativity assignments', base + ['--nt', '1', '--t', '3', '--err', '0', '--maxR', '3', '--maxW', '6' if q else '7', '--maxlen', '4' if q else '5', '--prec-levels', '2' if q else '3', '--rprec-max', '2' if q else '3'] + ([] if q else ['--prec-base', '-1'])))
+        P.append(('NT2 T2 R<=%d' % (3 if q else 4), base + ['--nt', '2', '--t', '2', '--err', '0', '--maxR', '3' if q else '4', '--maxlen', '4', '--prec-levels', '2' if q else '3', '--rprec-max', '1' if q else '3'] + ([] if q else ['--prec-base', '-1'])))
         if not q:
             P.append(('operator grammars NT1 T3 R=4 W 6..8', base + ['--nt', '1', '--t', '3', '--err', '0', '--minR', '4', '--maxlen', '5', '--prec-levels', '3', '--rprec-max', '2']))
     return ('quick' if q else 'thorough'), P
@@ -89,7 +93,7 @@ def gram_passes(pid, tier):
 GRAM_RULE = {
  'C01': 'Every grammar inside the bounds (all left-side and right-side symbol assignments for every arity vector; nothing symmetry-reduced) is injected into the real ctpg::parser; the real analyzer builds its table, which is compared state by state with a textbook canonical LR(1) automaton. For every grammar that is LR(1) by the reference and whose real write_diag_str shows no conflict line, every terminal string up to the length bound is parsed by the real parse() and the verdict compared with CFG membership (language fixpoint) and with the reference LR driver; when the real table differs from the reference the string bound is raised for that grammar to look for a string-level witness. Non-trivial = LR(1), diag-clean grammar that accepts >=1 and rejects >=1 explored string.',
  'C02': 'Same grammar x string space as C01, accepted inputs only. Functors log (rule, child value ids); term values carry (term index, lexeme offset, length). The returned value tree is compared with the derivation tree produced by the reference LR driver; every value must be produced once and consumed once, and the number of functor calls must equal the number of tree nodes. Non-trivial = accepted input of an LR(1) grammar with a non-empty tree.',
- 'C05': 'Every grammar inside the bounds whose canonical LR(1) collection has a shift/reduce cell, crossed with every assignment of precedence level and associativity to each term that takes part in a conflict (and explicit [n] precedences on each conflicting rule). The real table is compared cell by cell with the reference automaton resolved by the documented rule (including has_sr_conflict flags and untouched cells), then every string up to the bound is parsed and the grouping (functor tree) compared with the reference driver on the resolved table. Non-trivial = (grammar, assignment) pairs; outcomes = distinct trees.',
+ 'C05': 'Every grammar inside the bounds whose canonical LR(1) collection has a shift/reduce cell, crossed with every assignment of precedence level and associativity to each term that takes part in a conflict (and explicit [n] precedences, including a negative one, on each conflicting rule). The real table is compared cell by cell with the reference automaton resolved by the documented rule (including has_sr_conflict flags and untouched cells), then every string up to the bound is parsed and the grouping (functor tree) compared with the reference driver on the resolved table. Non-trivial = (grammar, assignment) pairs; outcomes = distinct trees.',
  'C08': 'Every grammar of the error-rule frames (one right-side position fixed to the error symbol, everything else enumerated) that is conflict-free by the reference (error treated as a terminal), crossed with every terminal string up to the bound. The real parse() is compared with the documented recovery procedure run on the reference table: result, value tree (kept values are kept), number/position/term of Syntax error reports. Non-trivial = grammar with an error rule that accepts >=1 and rejects >=1 string; outcomes classify runs by (recovered/failed, states popped, terms discarded).',
  'C09': 'Same grammar x string space as C01 (grammars without error rules). The captured error stream must be empty on success and otherwise exactly one line naming the first offending term and its [line:column] as given by the reference driver on the canonical table (for grammars with unproductive reachable symbols only the shape of the report is judged); a verbose re-run must not recognise any term after the report.',
  'C11': 'Every grammar inside the bounds (conflict-free, S/R, R/R, accept/reduce). The real write_diag_str text is split into rules, states, item lines and action lines and compared (1) with the dumped parse table the parser executes, (2) with the reference canonical LR(1) automaton matched state by state from state 0: conflict lines iff the reference has a conflict in that state on that term, rule named = rule of the conflicting completed item, side = documented preference. Non-trivial = grammars with at least one conflict or more than 2 states.',
@@ -320,6 +324,10 @@ def run_rx(pid, tier, rep, deadline_s):
                     'samples': tot['samples'][:8] or [{'note': 'see counters'}], 'evaluations': ev, 'distinct_nontrivial': nontriv, 'rule': RX_RULE[pid],
                     'exhaustive': exhaustive, 'bounds': bounds, 'distinct_outcomes': sorted(tot['outcomes'])[:80], 'n_distinct_outcomes': len(tot['outcomes']), 'counters': c,
                     'what_states_and_transitions_are': {'C03': 'states = reachable (real DFA state, reference DFA state) pairs; transitions = pair edges over all 256 bytes + real dfa_match runs', 'C04': 'states = reachable (lexer state, per-term reference states) product states; transitions = real parses', 'C10': 'states = (term set, grammar) configurations; transitions = real parses', 'C17': 'states = candidate pattern strings; transitions = real pattern-parser runs (two contexts each)', 'C12': 'states = DFA states built by the real builder; transitions = size predictions compared'}[pid]}
+    if pid == 'C04':
+        nconf, probs = lexer_conformance(exe)
+        for pr in probs: rep.add({'kind': 'constexpr-path-differs', 'known': '', 'engine': 'rx', 'summary': pr})
+        rep.coverage['traces_validated_against_impl'] += nconf; rep.coverage['constexpr_conformance_replays'] = nconf
     if pid == 'C03':
         nconf, probs = rx_conformance(tier, exe)
         for pr in probs: rep.add({'kind': 'constexpr-path-differs', 'known': '', 'engine': 'rx', 'summary': pr})
@@ -619,6 +627,35 @@ def run_c02(pid, tier, rep, deadline_s):
     totals, samples, bounds, extra = run_progs(pid, rep, [dict(name='c02v', src='c02_values.cpp', args=[4 if q else 6], compilers=['g++'] if q else ['g++', 'clang++'], label='rules without functor (0-3 children of distinct types), typed term, helper functors; inputs<=%d over 9 bytes' % (4 if q else 6))], deadline_s)
     rep.coverage = merge_cov(cov, {'states': totals['cases'], 'transitions': totals['checks'], 'traces_validated_against_impl': totals['cases'], 'samples': samples, 'evaluations': totals['cases'], 'distinct_nontrivial': extra.get('accepted', 0), 'bounds': bounds,
                                    'exhaustive': all(b['completed'] for b in bounds), 'rule': 'Compiled part: a grammar whose rules have no functor (left-side value constructed from 0, 1, 2 and 3 right-side values of distinct types), a typed term and helper functors, on every input up to the bound; value and construction order are compared with an independent recursive-descent evaluator.'})
+
+def lexer_conformance(exe):
+    """DESIGN 1.6: the term sets of seeds/termsets.txt as `constexpr parser` objects; their lexer_sm must equal, state by state, the
+    table the lexer frame builds at run time through the same library calls, and lexer_dfa_size must equal the sum E-RX predicts."""
+    gen = os.path.join(VERIF, 'gen', 'lexct_gen.py'); ts = os.path.join(VERIF, 'seeds', 'termsets.txt')
+    d = common.build_dir('lexct', [gen, ts, os.path.join(VERIF, 'engines', 'dfa_dump.hpp')], ['-O0'])
+    outf = os.path.join(d, 'ct.txt')
+    if not os.path.exists(outf):
+        tmp = d + '.tmp%d' % os.getpid(); shutil.rmtree(tmp, ignore_errors=True); os.makedirs(tmp)
+        src = os.path.join(tmp, 'lexct.cpp'); sh([sys.executable, gen, ts, src])
+        r = sh(['g++', '-std=c++17', '-O0', '-fno-access-control', '-fconstexpr-ops-limit=2000000000', '-I' + os.path.join(REPO, 'include'), '-I' + os.path.join(VERIF, 'engines'), src, '-o', src[:-4]])
+        if r.returncode != 0:
+            msg = ' / '.join([l for l in (r.stdout + r.stderr).splitlines() if 'error' in l][:3])[:500]; shutil.rmtree(tmp, ignore_errors=True)
+            return 0, ['the constexpr parsers for the conformance term sets do not compile: ' + msg]
+        open(os.path.join(tmp, 'ct.txt'), 'w').write(sh([src[:-4]], timeout=300).stdout)
+        os.remove(src[:-4])
+        if os.path.exists(d): shutil.rmtree(tmp, ignore_errors=True)
+        else: os.rename(tmp, d)
+    rt = sh([exe, '--mode', 'dump-termsets', '--one', ts]).stdout
+    def blocks(t):
+        b = {}; cur = None
+        for l in t.splitlines():
+            if l.startswith('### '): cur = l[4:]; b[cur] = []
+            elif cur is not None: b[cur].append(l)
+        return b
+    A, B = blocks(open(outf).read()), blocks(rt)
+    probs = ['term set %r: the lexer table built in constant evaluation differs from the run-time built one' % k for k in A if k in B and A[k] != B[k]]
+    if set(A) != set(B): probs.append('term set lists differ')
+    return len(A), probs[:5]
 
 def rx_conformance(tier, exe):
     """DESIGN 1.6, second bullet: every pattern up to K nodes as `constexpr regex::expr<P>` (cstring_buffer, dfa_builder<dfa_size>, constant
